@@ -34,6 +34,18 @@ CHECKS = {
   text="Generated programs (C01's generator plus big-int/float/bytes/odd-string constants, docstrings, keyword-only parameters, closures, loads, recursion on/off, and padded layouts that saturate the position tables) are compiled, written, read back and re-written; both programs are initialised in fresh environments and must agree on effects, globals, error text, call stack positions, backtrace, step count, function metadata (docs, parameters with positions and defaults, free variables), loads and filename, and the second Write must reproduce the first byte for byte.",
   design_ref="DESIGN.md section 4, C17",
   note="Differential within one implementation: defects shared by both paths are C01's; only bytes produced by Write are decoded."),
+ "C18": dict(
+  technique="property testing against a reference implementation and an inverse law: encoding/json plus a strict RFC 8259 parser as oracle, grammar-generated documents, single-splice corruptions and exhaustive tiny documents",
+  category="exploration",
+  text="(encode) generated values to depth 6 (ints to 2^200, floats, arbitrary Unicode incl. controls/DEL/U+2028/astral, aliased siblings, structs) must encode to valid JSON denoting the same data (ints exact, floats bit-identical, strings and sorted keys exact) and decode(encode(x)) == x; every ASCII byte and 19 special runes are covered exhaustively in 4 contexts. (decode) grammar-generated documents must decode to what encoding/json (UseNumber) yields. (reject) one-splice corruptions, ~260 classic invalid documents in 8 contexts and every document of length <= 4 (thorough <= 5) over a 19-byte alphabet: invalid => decode fails and decode(doc, default) returns the default; valid => it does not.",
+  design_ref="DESIGN.md section 4, C18",
+  note="Trusts encoding/json and the harness's strict parser (cross-checked against each other on every case); lone surrogates, invalid UTF-8 input and numbers beyond float64 are counted exclusions; nesting beyond depth 200 is C02's."),
+ "C19": dict(
+  technique="model-based property testing: exhaustive operand-kind x operator table against exact math/big nanosecond arithmetic, plus algebraic laws and round trips on generated instants/durations/zones",
+  category="exploration",
+  text="Every ordered pair of operand kinds {time, duration, int, float, string, None} x 19 operators over value pools (39 instants in 3 zones, 16 durations, boundary ints/floats; full product) and rapid values over 12 zones incl. DST days is evaluated through the VM and compared with a table of the documented operations computed exactly: undocumented ordered pairs must be rejected, never computed as the reversed operation. Laws: (t+d)-d, (t2-t1)+t1, zone-independent ==/order/hash/dict/set behaviour, trichotomy, sorted; round trips unix/unix_nano/from_timestamp, components/time(...), parse_duration(str(d)).",
+  design_ref="DESIGN.md section 4, C19",
+  note="Trusts the operation table written from the package documentation and Go's time zone database (time/tzdata linked in); results overflowing int64 nanoseconds are excluded and counted; d/d is accepted within relative error 2^-50."),
 }
 
 PENDING_REASON = "check not built yet in this session (work in progress; DESIGN.md section 4 describes the planned generated-input check)"
